@@ -120,10 +120,20 @@ def run(ctx):
     ctx.check(ok, "R12.4", si.qualname, "sort call", loc(si, si.node), "sort_issues no longer sorts with a key function (stability lost)",
               desc="sort_issues uses sorted(..., key=...)")
     # the key function: ints default to a number, others to a string, in list order
-    gk = si.nested.get("_get_keys")
+    def _key_function(sort_call):
+        for k in sort_call.keywords:
+            if k.arg == "key" and isinstance(k.value, ast.Name):
+                if k.value.id in si.nested:
+                    return si.nested[k.value.id]
+                r = prog.resolve_expr(k.value, si.module, None, si)
+                from sa.model import FunctionInfo as _FI
+                if isinstance(r, _FI):
+                    return r
+        return None
+    gk = next((g for g in (_key_function(c) for c in sorts) if g is not None), None)
     if gk is not None:
-        loops = [lp for lp in walk_no_nested(gk.node) if isinstance(lp, ast.For) and norm(lp.iter) == "default_sort_list"]
-        ctx.check(bool(loops), "R12.4", gk.qualname, "iteration", loc(gk, gk.node),
+        iters = [lp.iter for lp in ast.walk(gk.node) if isinstance(lp, (ast.For, ast.comprehension))]
+        ctx.check(any(norm(i) == "default_sort_list" for i in iters), "R12.4", gk.qualname, "iteration", loc(gk, gk.node),
                   "the sort key no longer iterates default_sort_list in order", desc="key built by iterating default_sort_list")
 
     # ---------------- R12.5
@@ -132,7 +142,7 @@ def run(ctx):
         raise AnalysisError("anchor replace_tag_references vanished")
     ctx.saw(rtr)
     stores = [n for n in walk_no_nested(rtr.node) if isinstance(n, ast.Assign) and isinstance(n.targets[0], ast.Subscript)]
-    ctx.floor("R12.5", "leaf stores in replace_tag_references", len(stores), 2)
+    ctx.floor("R12.5", "leaf stores in replace_tag_references", len(stores), 1)
     n_str = 0
     for st in stores:
         val = st.value
@@ -142,8 +152,31 @@ def run(ctx):
         ctx.check(is_str or is_same, "R12.5", rtr.qualname, st, loc(rtr, st),
                   "a leaf is replaced by `%s`, neither itself nor str(...): the result may not be JSON-serialisable" % norm(val),
                   desc="leaf store `%s`" % norm(st)[:50])
-    ctx.check(n_str >= 2, "R12.5", rtr.qualname, "str() conversions", loc(rtr, rtr.node),
-              "not both the dict branch and the list branch convert non-number leaves with str()", desc="both branches use str()")
+    # every loop over the container's elements converts leaves with str() and recurses; dict and list are both walked
+    from sa.dataflow import ReachingDefs as _RD125
+    rd125 = _RD125(rtr)
+    loops125 = [lp for lp in walk_no_nested(rtr.node) if isinstance(lp, ast.For) and any(
+        isinstance(x, ast.Assign) and isinstance(x.targets[0], ast.Subscript) for x in ast.walk(lp))]
+    ctx.floor("R12.5", "element loops in replace_tag_references", len(loops125), 1)
+    sources = set()
+    for lp in loops125:
+        has_str = any(isinstance(x, ast.Assign) and isinstance(x.targets[0], ast.Subscript) and isinstance(x.value, ast.Call)
+                      and call_name(x.value) == "str" for x in ast.walk(lp))
+        has_rec = any(isinstance(x, ast.Call) and call_name(x) == rtr.name for x in ast.walk(lp))
+        ctx.check(has_str, "R12.5", rtr.qualname, lp.iter, loc(rtr, lp),
+                  "this loop over the container's elements does not convert non-number leaves with str()",
+                  desc="loop over `%s` converts leaves with str()" % norm(lp.iter)[:30])
+        ctx.check(has_rec, "R12.5", rtr.qualname, "recursion in loop over " + norm(lp.iter)[:30], loc(rtr, lp),
+                  "nested containers are not recursed into in this loop", desc="loop over `%s` recurses" % norm(lp.iter)[:30])
+        its = [lp.iter]
+        if isinstance(lp.iter, ast.Name):
+            its += [d.value for d in (rd125.at(lp, lp.iter.id) or []) if d.value is not None]
+        for it in its:
+            if isinstance(it, ast.Call):
+                sources.add(call_name(it))
+    ctx.check({"items", "enumerate"} <= sources, "R12.5", rtr.qualname, "containers walked", loc(rtr, rtr.node),
+              "not both dictionaries (.items()) and lists (enumerate) are walked: %s" % sorted(x for x in sources if x),
+              desc="dict and list elements are both walked")
     # unchanged leaves only under an isinstance test for (bool, float, int)
     from sa.dom import view
     v = view(ctx, rtr)
@@ -153,9 +186,6 @@ def run(ctx):
             g = v.guard_for(n_, lambda t: "isinstance" in norm(t) and all(x in norm(t) for x in ("bool", "float", "int")))
             ctx.check(g is not None and g[1] is True, "R12.5", rtr.qualname, "guard of " + norm(st), loc(rtr, st),
                       "a leaf is kept unchanged without being tested to be bool/int/float", desc="unchanged leaf is a number")
-    rec = [c for c in walk_no_nested(rtr.node) if isinstance(c, ast.Call) and call_name(c) == rtr.name]
-    ctx.check(len(rec) >= 2, "R12.5", rtr.qualname, "recursion", loc(rtr, rtr.node),
-              "nested containers are not recursed into in both branches", desc="containers recursed in both branches")
 
     # ---------------- R12.6: an issue is never listed twice as the same object
     ctx.rule("R12.6", "an issue taken out of a list and put back (as a variant with another code) is a copy, never the same dict object twice")
@@ -216,29 +246,31 @@ def run(ctx):
     ctx.floor("R12.7", "message-suffix appends in the error reporter", n_suffix, 1)
 
     # ---------------- R12.4+: sort keys are comparable whatever the context values are
-    srt = prog.find_function("error_reporter.sort_issues")
-    keyf = srt.nested.get("_get_keys") if hasattr(srt, "nested") else None
+    keyf = gk
     if keyf is None:
-        raise AnalysisError("R12.4 anchor: sort_issues._get_keys vanished")
+        raise AnalysisError("R12.4 anchor: the key function of sort_issues cannot be resolved")
     ctx.saw(keyf)
     n_key = 0
-    for c in walk_no_nested(keyf.node):
-        if isinstance(c, ast.Call) and isinstance(c.func, ast.Attribute) and c.func.attr == "append" and c.args:
-            arg = c.args[0]
-            if isinstance(arg, ast.Name):      # the key computed into a local first
-                from sa.dataflow import ReachingDefs as _RD12
-                ds = _RD12(keyf).at(c, arg.id) or []
-                if len(ds) == 1 and ds[0].kind == "assign" and ds[0].value is not None:
-                    arg = ds[0].value
-            inner = arg.args[0] if isinstance(arg, ast.Call) and isinstance(arg.func, ast.Name) and arg.func.id in ("str", "int", "float") and arg.args else arg
-            if isinstance(inner, ast.Call) and call_name(inner) == "get" and len(inner.args) == 2 and isinstance(inner.args[1], ast.Constant) \
-                    and isinstance(inner.args[1].value, str):
-                n_key += 1
-                ctx.check(arg is not inner and arg.func.id == "str", "R12.4", keyf.qualname, c, loc(keyf, c),
-                          "a textual sort key is taken as it comes (`%s`): a spreadsheet without column names pushes integer column "
-                          "contexts, which cannot be compared with the '' default of issues that have no column — sort_issues raises "
-                          "TypeError and the table entry point returns nothing" % norm(arg)[:40], desc="textual sort keys compared as str")
-    ctx.floor("R12.4", "textual sort keys in _get_keys", n_key, 1)
+    pm12 = {id(ch): p_ for p_ in ast.walk(keyf.node) for ch in ast.iter_child_nodes(p_)}
+    from sa.dataflow import ReachingDefs as _RD12
+    rd12k = None
+    for inner in ast.walk(keyf.node):
+        if isinstance(inner, ast.Call) and call_name(inner) == "get" and len(inner.args) == 2 and isinstance(inner.args[1], ast.Constant) \
+                and isinstance(inner.args[1].value, str):
+            n_key += 1
+            par = pm12.get(id(inner))
+            wrapped = isinstance(par, ast.Call) and isinstance(par.func, ast.Name) and par.func.id == "str" and inner in par.args
+            if not wrapped and isinstance(par, ast.Assign) and len(par.targets) == 1 and isinstance(par.targets[0], ast.Name):
+                # bound to a local first: every use of that local must be str(local)
+                nm = par.targets[0].id
+                uses = [x for x in ast.walk(keyf.node) if isinstance(x, ast.Name) and x.id == nm and isinstance(x.ctx, ast.Load)]
+                wrapped = bool(uses) and all(isinstance(pm12.get(id(u)), ast.Call) and isinstance(pm12[id(u)].func, ast.Name)
+                                             and pm12[id(u)].func.id == "str" for u in uses)
+            ctx.check(wrapped, "R12.4", keyf.qualname, inner, loc(keyf, inner),
+                      "a textual sort key is taken as it comes (`%s`): a spreadsheet without column names pushes integer column "
+                      "contexts, which cannot be compared with the '' default of issues that have no column — sort_issues raises "
+                      "TypeError and the table entry point returns nothing" % norm(inner)[:40], desc="textual sort keys compared as str")
+    ctx.floor("R12.4", "textual sort keys in the key function of sort_issues", n_key, 1)
 
     # ---------------- R12.8: what callers pass for locating / coding an issue is used
     ctx.rule("R12.8", "every parameter of a validator function is used (an offset or an override code that is accepted but ignored mislocates or miscodes the issue)")
